@@ -300,6 +300,22 @@ func runC03(w *World, r *Report) {
 		}
 	}
 	c03ReadOnlySelection(w, r)
+	// every constraint of a list is examined: the qualifier loops end only by exhaustion or by returning a verdict
+	for _, q := range []string{"isHeadersQualified", "isStatusCodeQualified", "isMethodQualified", "isQueryParamsQualified", "isHeaderValueValid"} {
+		f := w.Fn(pkgFilter, "FilterNode."+q)
+		if f == nil {
+			continue // reported by the signature rule
+		}
+		hs := loopHeadersOf(f)
+		var br []string
+		for _, h := range hs {
+			br = append(br, loopBreaks(h)...)
+		}
+		if len(hs) == 0 {
+			continue
+		}
+		r.Check(len(br) == 0, "R4", q+"/loops-examine-every-constraint", f.Pos(), "%d loop(s) over the filter's constraints; none is left by break (a skipped constraint would accept a transaction the filter excludes): %v", len(hs), br)
+	}
 	checkDeclaredTreesDoNotConverge(w, r, "R6")
 	c03Accessors(w, r)
 	r.Min("R9", 5)
